@@ -4,9 +4,10 @@ import (
 	"encoding/base64"
 	"encoding/hex"
 	"fmt"
-	"regexp"
+	"github.com/shutter-network/rolling-shutter/rolling-shutter/keyper/smobserver"
 	"math/big"
 	"reflect"
+	"regexp"
 	"strings"
 	"testing"
 
@@ -514,5 +515,64 @@ func FuzzC14_MakeEvent(f *testing.F) {
 				t.Fatalf("VERIF-FAIL signature=decode-unstable :: unstable decode for %s", evDesc(ev))
 			}
 		}
+	})
+}
+
+// TestC14_DriverDecodingStep runs blocks of generated events - well-formed and malformed ones mixed -
+// through the keyper driver's own decoding step (smobserver.makeEvents) and then does with each result
+// what HandleEvent does first: call a method on it. A malformed event must be dropped, a well-formed
+// one must come out equal to what MakeEvent gives, in order; nothing that comes out may be a nil value
+// in an interface (calling a method on it is the crash).
+func TestC14_DriverDecodingStep(t *testing.T) {
+	rec := recorder("C14")
+	rec.AddRule("driver decoding step: blocks of 1-6 events (each well-formed, or mutated as in the decoder test) through smobserver.makeEvents; every returned event is usable (non-nil, String() does not panic), their sequence equals the well-formed events of the block decoded one by one; non-trivial = the block mixes well-formed and malformed events")
+	runRapid(t, N(800, 150000), func(rt *rapid.T) {
+		n := rapid.IntRange(1, 6).Draw(rt, "nEvents")
+		var block []abcitypes.Event
+		var want []shutterevents.IEvent
+		good, bad := 0, 0
+		for i := 0; i < n; i++ {
+			abci := genEvent(rt).MakeABCIEvent()
+			if rapid.Bool().Draw(rt, fmt.Sprintf("mutate%d", i)) {
+				for k, nm := 0, rapid.IntRange(1, 2).Draw(rt, fmt.Sprintf("nMut%d", i)); k < nm && len(abci.Attributes) > 0; k++ {
+					abci, _, _, _ = mutateEvent(rt, abci)
+				}
+			}
+			block = append(block, abci)
+			if ev, err, p := safeMakeEvent(abci, 7); p != nil {
+				fatalf(rt, "decode-panic", "MakeEvent panicked: %v\nevent: %s", p, evDesc(abci))
+			} else if err == nil {
+				want = append(want, ev)
+				good++
+			} else {
+				bad++
+			}
+		}
+		var got []shutterevents.IEvent
+		func() {
+			defer func() {
+				if r := recover(); r != nil {
+					fatalf(rt, "driver-decode-panic", "the driver's decoding step panicked: %v", r)
+				}
+			}()
+			got = smobserver.VerifMakeEvents(7, block)
+		}()
+		for i, ev := range got {
+			if ev == nil || (reflect.ValueOf(ev).Kind() == reflect.Ptr && reflect.ValueOf(ev).IsNil()) {
+				fatalf(rt, "malformed-event-passed-on", "the driver's decoding step returned a nil event at position %d of %d (the state machine calls methods on it): block of %d well-formed and %d malformed events", i, len(got), good, bad)
+			}
+			func() {
+				defer func() {
+					if r := recover(); r != nil {
+						fatalf(rt, "malformed-event-passed-on", "an event returned by the driver's decoding step panics when used: %v", r)
+					}
+				}()
+				_ = ev.String()
+			}()
+		}
+		if d := cmp.Diff(want, got, evCmp...); d != "" {
+			fatalf(rt, "driver-decode-differs", "the driver's decoding step does not return exactly the well-formed events of the block:\n%s", d)
+		}
+		rec.Case(fmt.Sprintf("driverblock:%d good %d bad:%s", good, bad, evDesc(block[0])), good > 0 && bad > 0, "driver-decoding-step")
 	})
 }
